@@ -30,11 +30,11 @@ import (
 
 // c05Note is the ground truth of a transaction crafted by this check (JSON in TxMeta.Note).
 type c05Note struct {
-	Forged     string   `json:"forged"`                // class
-	MustReject bool     `json:"must_reject"`           // by the statement, from the harness's own knowledge
-	Signers    []string `json:"signers,omitempty"`     // multisig: hex addresses that signed
-	MsigSum    uint32   `json:"msig_sum,omitempty"`    // weight of the distinct listed owners among the signers
-	MsigThr    uint32   `json:"msig_thr,omitempty"`    // threshold at generation time
+	Forged     string   `json:"forged"`             // class
+	MustReject bool     `json:"must_reject"`        // by the statement, from the harness's own knowledge
+	Signers    []string `json:"signers,omitempty"`  // multisig: hex addresses that signed
+	MsigSum    uint32   `json:"msig_sum,omitempty"` // weight of the distinct listed owners among the signers
+	MsigThr    uint32   `json:"msig_thr,omitempty"` // threshold at generation time
 	Why        string   `json:"why,omitempty"`
 }
 
@@ -148,10 +148,10 @@ type MonAuth struct {
 	Res  *WorkerResult
 	prev Snap
 	// per block
-	authorised map[types.Address]string   // senders of accepted transactions -> how
-	allow      map[OwnerCoin]*big.Int     // explained decreases of passive addresses
+	authorised map[types.Address]string // senders of accepted transactions -> how
+	allow      map[OwnerCoin]*big.Int   // explained decreases of passive addresses
 	allowWhy   map[OwnerCoin]string
-	editTx     map[string]bool            // candidate ids edited by an accepted tx of their owner in this block
+	editTx     map[string]bool // candidate ids edited by an accepted tx of their owner in this block
 }
 
 func (m *MonAuth) Name() string { return "C05" }
@@ -242,6 +242,9 @@ func (m *MonAuth) AfterTx(s *Sim, i int, raw []byte, meta *TxMeta, res *abci.Res
 				m.rep(s, "forged-accepted", note.Forged, i, "%s: transaction of type %02x from %s accepted (%s)", note.Forged, meta.Type, sndS, note.Why)
 			} else {
 				m.Res.Count("forged-rejected/"+note.Forged, 1)
+				if strings.HasPrefix(note.Forged, "msig") || strings.HasPrefix(note.Forged, "remove-order") {
+					m.Res.Sample(map[string]interface{}{"height": s.CurReq.Height, "forged": note.Forged, "from": sndS, "code": res.Code, "why": note.Why}, 4)
+				}
 			}
 		} else if res.Code == 0 {
 			m.Res.Count("rightful-accepted/"+note.Forged, 1)
@@ -399,6 +402,11 @@ func (m *MonAuth) AfterTx(s *Sim, i int, raw []byte, meta *TxMeta, res *abci.Res
 				recv[rk] = new(big.Int)
 			}
 			recv[rk].Add(recv[rk], fl.buy)
+		case "msig":
+			// owners / weights / threshold of an existing multisig account: only by the account itself
+			if hadPrev && pv != "exists" && p[1] != sndS {
+				m.rep(s, "multisig-changed-by-other", site, i, "multisig %s: %s -> %s by tx from %s (code %d)", p[1], pv, cv, sndS, res.Code)
+			}
 		case "candid":
 			if !hadPrev {
 				continue
@@ -993,7 +1001,7 @@ func init() {
 			"fill price tolerance: one unit of rounding per fill against the order's remaining volumes (exact rounding is C14's business)",
 			"the AMOUNT an authorised sender loses in its own transaction is not judged here (C01/C13/C15/C27)",
 		},
-		Quick: 42, Thorough: 700, MinEval: 12000, MinDistinct: 50,
+		Quick: 42, Thorough: 1200, MinEval: 12000, MinDistinct: 50,
 		Run: func(ctx *WorkCtx, idx int) {
 			r := Rng(ctx.Seed, "C05", idx)
 			sc := StdScenario(idx, r, 70)
